@@ -103,6 +103,7 @@ func (m FileMatcher) Match(file *ast.File, d data.Data) (data.Data, bool) {
 			parent: cursor.Parent(),
 			name:   cursor.Name(),
 			index:  cursor.Index(),
+			node:   n,
 			data:   data.Index(d),
 			region: nodeRegion(cursor.Node()),
 		})
@@ -182,7 +183,24 @@ func (r FileReplacer) Replace(d data.Data, cl Changelog) (*ast.File, error) {
 		}
 
 		if m.index >= 0 {
-			v = v.Index(m.index)
+			// Updating the imports above may have shifted the
+			// elements of the list (typically File.Decls).
+			idx := m.index
+			if m.node != nil && (idx >= v.Len() || v.Index(idx).Interface() != m.node) {
+				idx = -1
+				for i := 0; i < v.Len(); i++ {
+					if v.Index(i).Interface() == m.node {
+						idx = i
+						break
+					}
+				}
+				if idx < 0 {
+					// The node is gone (an import declaration that was
+					// merged into another one, say): nothing to replace.
+					continue
+				}
+			}
+			v = v.Index(idx)
 		}
 
 		give, err := r.NodeReplacer.Replace(m.data, cl, m.region.Pos)
